@@ -7,6 +7,7 @@
 From Coq Require Import List ZArith Lia Bool.
 From RecordUpdate Require Import RecordSet.
 From Sim Require Import Map Variant Current Kernel Queue Net Pcap HttpParse SimState Sim Apps Script SockProofs KernelInv KernelTrace KernelFifo KernelTimers HandlerProofs.
+From Sim Require Import CompositeProofs.
 Import ListNotations.
 Local Open Scope Z_scope.
 
@@ -180,3 +181,21 @@ Theorem C04_new_udp_receive_supersedes_the_old_one :
        ++ snd (udp_async_recv_impl (mkcx v now) s bufs want h w1)).
 Proof. exact new_udp_receive_supersedes_the_old_one. Qed.
 Print Assumptions C04_new_udp_receive_supersedes_the_old_one.
+
+(* ---- the kernel theorems in the composite model as driven by a script (Proofs/CompositeProofs.v):
+   every completion any socket, acceptor, resolver or test server posts runs exactly once, later ---- *)
+Theorem C04_in_the_composite_model_posted_completions_run_exactly_once_later :
+  forall v fuel pfuel (p : script),
+    let s := run_script v fuel pfuel p in
+    posts task logev (trace _ _ _ s) = execs task logev (trace _ _ _ s) ++ map (pair (now _ _ _ s)) (ready _ _ _ s).
+Proof. intros. exact (composite_FInv v fuel pfuel p). Qed.
+Print Assumptions C04_in_the_composite_model_posted_completions_run_exactly_once_later.
+
+Theorem C04_in_the_composite_model_timer_waits_complete_at_most_once :
+  forall v fuel pfuel (p : script) (i : tid),
+    let s := run_script v fuel pfuel p in
+    cnt task logev (is_wait task logev i) (trace _ _ _ s) =
+      cnt task logev (is_fire task logev i) (trace _ _ _ s) + cnt task logev (is_over task logev i) (trace _ _ _ s)
+      + pend task net logev s i.
+Proof. intros. exact (composite_AInv v fuel pfuel p i). Qed.
+Print Assumptions C04_in_the_composite_model_timer_waits_complete_at_most_once.
